@@ -21,6 +21,7 @@ From Cicada Require Import Base.Chars Base.Tag Model.Tokenizer Model.Redirect Mo
   Proofs.TokenizerProofs Proofs.RedirectProofs Proofs.ListExecProofs Proofs.CmdsProofs.
 From Cicada Require Import Model.Expand Model.FullPlan Proofs.C13Proofs Proofs.C01Full.
 From Cicada Require Proofs.ExpandInert Proofs.TokenizerEscProofs.
+From Cicada Require Import Proofs.TokenizerMixedProofs Proofs.C01Mixed.
 
 Theorem C01_tokenize : forall cmd (args : list (nat * qarg)),
   plain_word cmd = true -> forallb arith_body cmd = false ->
@@ -78,6 +79,34 @@ Theorem C01_tokenize_escaped : forall cmd name n,
   = [(TNone, cmd); (TokenizerEscProofs.text_tag c01_special name, name)].
 Proof. exact (TokenizerEscProofs.parse_line_escaped c01_special c01_special_covers). Qed.
 
+(** The whole domain of the property: ANY number of arguments, each single-quoted,
+    double-quoted (also with backslash + quote for a double quote), or backslash-escaped, any
+    spacing, trailing blanks. [C01_tokenize_mixed]: the tokenizer returns one
+    token per argument holding exactly the written text (the tags are internal:
+    [mtoks] states them, including the stale backslash-separator behaviour).
+    [C01_plan_mixed_partial]: through the REAL expansion passes and the planner,
+    for every world: outside the decidable [Known_C01] -- exactly the two
+    recorded classes: an escaped argument whose untagged token still triggers
+    an expansion pass (esc-expanded), an escaped ampersand in last position
+    (esc-amp-last) -- the line is planned as ONE foreground command whose words
+    are the command word and exactly the written texts, with no pipe, background
+    marker, redirection or assignment. The proof forced no third class. *)
+Theorem C01_tokenize_mixed : forall cmd (args : list (nat * marg)) m,
+  plain_word cmd = true -> forallb arith_body cmd = false ->
+  forallb (fun '(_, a) => wf_marg a) args = true ->
+  map snd (parse_line (cmd ++ render_margs args ++ spaces m)) = cmd :: map (fun '(_, a) => marg_text a) args.
+Proof. exact parse_line_mixed_texts. Qed.
+
+Theorem C01_plan_mixed_partial : forall W fuel cmd (args : list (nat * marg)) m,
+  plain_word cmd = true -> forallb arith_body cmd = false -> split_env cmd = None ->
+  ExpandInert.cmd_ok W cmd ->
+  forallb (fun '(_, a) => wf_marg a) args = true ->
+  forallb (fun '(_, a) => dq_domain a) args = true ->
+  Known_C01 args = false ->
+  exists words, plan W fuel (cmd ++ render_margs args ++ spaces m) = Ok (C13Proofs.one_cmd words) /\
+                map snd words = cmd :: map (fun '(_, a) => marg_text a) args.
+Proof. exact plan_mixed_words. Qed.
+
 (** a line made of plain, quoted, escaped and backquoted atoms is ONE list segment *)
 Theorem C01_split : forall ws0 seg ws_end,
   forallb is_ws ws0 = true -> wf_seg seg = true -> forallb is_ws ws_end = true ->
@@ -116,6 +145,8 @@ Proof. vm_compute. repeat split. Qed.
 
 Print Assumptions C01_tokenize.
 Print Assumptions C01_plan_quoted.
+Print Assumptions C01_tokenize_mixed.
+Print Assumptions C01_plan_mixed_partial.
 Print Assumptions C01_tokenize_escaped.
 Print Assumptions C01_plan_full.
 Print Assumptions C01_post_passes.
